@@ -15,7 +15,8 @@ SPEC = load_spec_module(os.path.join(HERE, '..', 'contracts', 'C10.py'), 'contra
 ST = 'jesse.strategies.Strategy.Strategy'
 BR = 'jesse.services.broker.Broker'
 SB = 'jesse.exchanges.sandbox.Sandbox.Sandbox'
-FUNCTIONS = [f'{ST}._submit_buy_orders', f'{ST}._submit_sell_orders', f'{ST}._detect_and_handle_entry_and_exit_modifications',
+FUNCTIONS = ['jesse.store.state_orders.OrdersState.get_active_exit_orders', 'jesse.store.state_orders.OrdersState.get_exit_orders',
+             'jesse.store.state_orders.OrdersState.get_entry_orders', f'{ST}._submit_buy_orders', f'{ST}._submit_sell_orders', f'{ST}._detect_and_handle_entry_and_exit_modifications',
              f'{ST}._on_close_position', f'{ST}._execute_cancel', f'{ST}._check', f'{ST}.liquidate', f'{ST}._get_formatted_order',
              f'{ST}._prepare_stop_loss', f'{ST}._prepare_take_profit', f'{ST}._prepare_buy', f'{ST}._prepare_sell',
              f'{BR}.buy_at', f'{BR}.sell_at', f'{BR}.buy_at_market', f'{BR}.sell_at_market', f'{BR}.start_profit_at',
@@ -273,6 +274,63 @@ def t_modify(kind, changed, nrows, orows=None):
     return t
 
 
+def t_selectors(ptype):
+    """the order selectors the routing relies on (they are contracted calls in the modify / cancel harnesses):
+    entry orders = active, not cancelled orders on the position's side (every submitted order while flat);
+    (active) exit orders = (active) not cancelled orders on the closing side, none while flat"""
+    def t(h):
+        w = common.futures_world(h, mode='cross')
+        pos = w.positions['BTC-USDT']
+        if ptype != 'close':
+            common.open_position(h, pos, ptype)
+        cls = h.repo.find('jesse.store.state_orders.OrdersState')
+        orders = []
+        for j in range(3):
+            side = 'buy' if h.branch(h.bool(f'is_buy{j}')) else 'sell'
+            st = h.ctx.fresh_str(f'status{j}', among=['ACTIVE', 'EXECUTED', 'CANCELED'])
+            orders.append(common.mk_order(h, side=side, type='LIMIT', qty=Fraction(1) if side == 'buy' else Fraction(-1), price=Fraction(10),
+                                          symbol='BTC-USDT', exchange='Sandbox', reduce_only=False, status=st, id=f'o{j}'))
+        active = []
+        for j, o in enumerate(orders):
+            inn = h.bool(f'in_active{j}')
+            h.assume(ops.implies(ops.equal(o.f['status'], 'ACTIVE'), inn))
+            if h.branch(inn):
+                active.append(o)
+        reg = Obj(cls, {'to_execute': [], 'storage': {'Sandbox-BTC-USDT': list(orders)}, 'active_storage': {'Sandbox-BTC-USDT': active}},
+                  name='orders')
+        h.cover('selectors.pre')
+
+        def keep(lst, side):
+            out = []
+            for o in lst:
+                if o.f['side'] == side and not h.branch(ops.equal(o.f['status'], 'CANCELED')):
+                    out.append(o)
+            return out
+
+        def same_list(a, b):
+            return isinstance(a, list) and len(a) == len(b) and all(x is y for x, y in zip(a, b))
+        pside = {'long': 'buy', 'short': 'sell'}.get(ptype)
+        cside = {'long': 'sell', 'short': 'buy'}.get(ptype)
+        got = h.method(reg, 'get_active_exit_orders', 'Sandbox', 'BTC-USDT')
+        h.prove(same_list(got, keep(active, cside) if cside else []), 'selectors.active-exit-orders-are-the-active-uncancelled-orders-on-the-closing-side')
+        got = h.method(reg, 'get_exit_orders', 'Sandbox', 'BTC-USDT')
+        h.prove(same_list(got, keep(orders, cside) if cside else []), 'selectors.exit-orders-are-the-uncancelled-orders-on-the-closing-side')
+        got = h.method(reg, 'get_entry_orders', 'Sandbox', 'BTC-USDT')
+        h.prove(same_list(got, keep(active, pside) if pside else list(orders)),
+                'selectors.entry-orders-are-the-active-uncancelled-orders-on-the-position-side-or-all-while-flat')
+        # the Strategy properties used by the routing code are thin wrappers over these selectors
+        st_ = Obj(h.repo.find(ST), {'exchange': 'Sandbox', 'symbol': 'BTC-USDT', 'position': pos}, name='strategy')
+        store = Obj(None, {'orders': reg}, name='store')
+        h.ctx.cfg.globals['jesse.strategies.Strategy.store'] = lambda i: store
+        h.prove(same_list(h.attr(st_, 'active_exit_orders'), h.method(reg, 'get_active_exit_orders', 'Sandbox', 'BTC-USDT'))
+                and same_list(h.attr(st_, 'exit_orders'), h.method(reg, 'get_exit_orders', 'Sandbox', 'BTC-USDT'))
+                and same_list(h.attr(st_, 'entry_orders'), h.method(reg, 'get_entry_orders', 'Sandbox', 'BTC-USDT')),
+                'selectors.strategy-properties-delegate-to-the-order-registry')
+        if ptype == 'long':
+            h.prove(same_list(got, list(orders)), 'selectors.mustfail')
+    return t
+
+
 def t_on_close(h):
     w = common.futures_world(h, mode='cross')
     cur = h.real('cur', 0)
@@ -416,6 +474,8 @@ def tasks(tier):
                                overrides=dict(ov)))
         for n, o in ((1, 2), (2, 1), (2, 3)):
             ts.append(Task(f'modify.{kind}.rows{o}to{n}', t_modify(kind, True, n, o), extra=x, overrides=dict(ov)))
+    for pt in ('long', 'short', 'close'):
+        ts.append(Task(f'selectors.{pt}', t_selectors(pt), extra=dict(x, bounded='registry of N=3 orders (side and status symbolic)'), overrides=dict(ov)))
     ts.append(Task('on-close', t_on_close, extra=x, overrides=dict(ov)))
     ts.append(Task('execute-cancel', t_execute_cancel, extra=x, overrides=dict(ov)))
     for n in (0, 1):
